@@ -233,9 +233,43 @@ def mon_c08_outside_f41(run, world):
     return mon_c08(run, world)
 
 
+def outside_rows_model(world):
+    """worlds whose traces the rows model does not describe: time values not in microseconds (known finding F41) and
+    Clockwork worlds (loaded profiles hold resources that no task requested: outside the machine)"""
+    import simgen
+    return bool({"non_us_times"} & simgen.signature(world)) or world["flags"].get("scheduler") == "Clockwork"
+
+
+def rows_tie(ctx, worlds, runs):
+    """S-rows: the rows the REAL simulator wrote vs the rows the machine emits for the same call log (Model/SimRows.v,
+    theorems Props/C08_rows.v), compared inside Coq row by row and in order."""
+    ctx.rules.append("S-rows: for every generated simulation that ended, the captured CSV rows of the kinds WORKER_POOL_UTILIZATION, "
+                     "TASK_RELEASE, TASK_PLACEMENT, TASK_FINISHED, MISSED_DEADLINE, TASK_CANCEL, SIMULATOR_END (names -> ids, resources "
+                     "aggregated by name, each utilisation block sorted) must equal rows_of(call log) computed by the machine")
+    try:
+        mism, fed = simcommon.rows_stream(ctx, worlds, runs, outside=outside_rows_model)
+    except core.ModelEvalError as e:
+        ctx.broken.append({"kind": "correspondence", "name": "S-rows (rows model does not evaluate)", "detail": str(e)[-500:]})
+        return
+    for (i, j, mrow, irow) in mism[:3]:
+        kind = simcommon.ROW_KINDS[irow[0]] if irow else (simcommon.ROW_KINDS[mrow[0]] if mrow and mrow[0] >= 0 else "?")
+        if mrow == [-1] or (isinstance(mrow, list) and mrow and mrow[0] == -1):
+            # the machine rejected the call log: the S-sim tie reports that; nothing to say about rows
+            continue
+        ctx.violation("rows_world%d" % i, {
+            "stream": "S-rows", "what": "row %d of the trace (of the modelled kinds) is not the row the run implies: %s" % (j, kind),
+            "row_implied_by_the_run": mrow, "row_written_by_the_simulator": irow,
+            "row_format": "[kind, time, ...] kinds 0 UTILIZATION(pool,res,alloc,avail) 1 RELEASE(task,release,deadline) "
+                          "2 PLACEMENT(task,runtime,req) 3 FINISHED(task,completion,deadline) 4 MISSED(task,deadline) 5 CANCEL(task) "
+                          "6 END(finished,cancelled,missed)",
+            "world": worlds[i]})
+
+
 def run(ctx):
-    worlds, runs = simcheck.run_sim_property(ctx, ["C08"], mon_c08_outside_f41,
-                                             "a row of the CSV trace or the end-of-run summary disagrees with what happened in the run")
+    worlds, runs = simcheck.run_sim_property(ctx, ["C08", "C08_rows"], mon_c08_outside_f41,
+                                             "a row of the CSV trace or the end-of-run summary disagrees with what happened in the run",
+                                             deps=["Model/SimRows.v"])
+    rows_tie(ctx, worlds, runs)
     # ---- the project's own reader must accept every trace and reconstruct the run
     import simgen
     # closed-loop worlds: the reader is known to reject them (F9), replayed separately below
